@@ -318,10 +318,15 @@ pub fn run(cfg: &Cfg, out: &mut Out) {
     testutils::hermetic_git();
     let mut r = cfg.rng(34);
     for _ in 0..cfg.n(3, 20) { merge_probes(out, &mut r); }
-    let envs = cfg.n(20, 200);
+    // In-process, but the machine may be heavily loaded: environments are bounded by a wall-clock
+    // budget too (the cases are a deterministic prefix of the seed's sequence; >= 4 environments).
+    let t0 = std::time::Instant::now();
+    let budget = if cfg.tier == Tier::Quick { 45.0 } else { 700.0 } * cfg.scale as f64;
+    let envs = cfg.n(20, 300);
     let segs_per_env = 250;
-    out.note(format!("{envs} environments x {segs_per_env} segments of 1..7 ops; 3 bookmark names, 6 pool commits + root, remotes git/origin"));
-    for _ in 0..envs {
+    let mut ran = 0;
+    for e in 0..envs {
+        if e >= 4 && t0.elapsed().as_secs_f64() > budget { break; }
         let nn = 3;
         let mut env = new_env(&mut r, nn, 6);
         let mut tracks = vec![Track { base: Some(vec![None]), origin_touched: false }; nn];
@@ -329,5 +334,7 @@ pub fn run(cfg: &Cfg, out: &mut Out) {
             let len = r.range(1, 7);
             run_segment(&mut env, out, &mut r, &mut tracks, len);
         }
+        ran += 1;
     }
+    out.note(format!("{ran} environments (max {envs}, budget {budget}s) x {segs_per_env} segments of 1..7 ops; 3 bookmark names, 6 pool commits + root, remotes git/origin"));
 }
